@@ -152,8 +152,16 @@ def run_property(pid, rules, tier, seed, explanation, assumptions, replay=None, 
     t0 = time.time()
     ctx = Ctx(tier=tier, seed=seed)
     results = []
+    # a rule that has lost its anchor (vacuity floor, vanished construct) does not hide what the other rules
+    # report: its AnalysisError is deferred, the remaining rules run, and the run ends as a violation (exit 1)
+    # if any of them reports one, as analysis-broken (exit 2) otherwise -- never as a pass
+    deferred = []
     for rule in rules:
-        r = rule(ctx)
+        try:
+            r = rule(ctx)
+        except AnalysisError as e:
+            deferred.append(e)
+            continue
         if isinstance(r, (list, tuple)):
             results.extend(r)
         else:
@@ -199,6 +207,10 @@ def run_property(pid, rules, tier, seed, explanation, assumptions, replay=None, 
             print(f"    {d}")
         if replay and replay.get("key") == f.key:
             replay_hit = f
+    if deferred and not viol:
+        raise deferred[0]
+    for e in deferred:
+        print(f"ANALYSIS-NOTE property={pid}: {e}")
     # mutation self-check (thorough): measures the checker, never the repo
     st = None
     if selftest is not None and tier == "thorough":
